@@ -503,6 +503,11 @@ class Core(composites.Composite):
 
         # Negative assembly IDs are placeholders, and we need to renumber the assembly
         if a.p.assemNum < 0:
+            # Blocks this core already knows (e.g. stationary blocks left in place by a discharge
+            # swap) are about to be renamed, so forget their old names.
+            for b in a:
+                if self.blocksByName.get(b.getName()) is b:
+                    del self.blocksByName[b.getName()]
             a.renumber(self.r.incrementAssemNum())
 
         # resetting .assigned forces database to be rewritten for shuffled core
